@@ -5,6 +5,7 @@
 import Spec.UpsertExt
 import Proofs.C13Seed
 import Proofs.C02Frame
+import Proofs.C13ExtStrings
 
 set_option linter.unusedVariables false
 set_option linter.unusedSimpArgs false
@@ -38,8 +39,8 @@ theorem getPath_cons_congr {h : String} {fs gs : Fields} (t : List String)
   simp [getPath, hd]
 
 /-- effect: the new path holds the value -/
-theorem expandOne_get (paths : List String) (v : Val) : ∀ (p pre : List String) (acc acc' : Fields),
-    p ≠ [] → expandOne paths v p pre acc = .ok acc' → getPath p (.doc acc') = some v
+theorem expandOne_get (given inter : List String) (v : Val) : ∀ (p pre : List String) (acc acc' : Fields),
+    p ≠ [] → expandOne given inter v p pre acc = .ok acc' → getPath p (.doc acc') = some v
   | [], _, _, _, hp, _ => absurd rfl hp
   | [last], pre, acc, acc', _, h => by
     simp only [expandOne] at h
@@ -49,26 +50,61 @@ theorem expandOne_get (paths : List String) (v : Val) : ∀ (p pre : List String
   | part :: r1 :: rest, pre, acc, acc', _, h => by
     simp only [expandOne] at h
     split at h
-    · simp only [bind, Except.bind, pure, Except.pure] at h
-      cases hs : expandOne paths v (r1 :: rest) (pre ++ [part]) [] with
-      | error e => rw [hs] at h; cases h
-      | ok sub =>
-        rw [hs] at h; cases h
-        rw [getPath_cons_some _ (dget_dset_self' part _ acc)]
-        exact expandOne_get paths v (r1 :: rest) _ _ _ (by simp) hs
+    · split at h
+      · cases h
+      · simp only [bind, Except.bind, pure, Except.pure] at h
+        cases hs : expandOne given inter v (r1 :: rest) (pre ++ [part]) [] with
+        | error e => rw [hs] at h; cases h
+        | ok sub =>
+          rw [hs] at h; cases h
+          rw [getPath_cons_some _ (dget_dset_self' part _ acc)]
+          exact expandOne_get given inter v (r1 :: rest) _ _ _ (by simp) hs
     · rename_i sub0 _
-      simp only [bind, Except.bind, pure, Except.pure] at h
-      cases hs : expandOne paths v (r1 :: rest) (pre ++ [part]) sub0 with
-      | error e => rw [hs] at h; cases h
-      | ok sub =>
-        rw [hs] at h; cases h
-        rw [getPath_cons_some _ (dget_dset_self' part _ acc)]
-        exact expandOne_get paths v (r1 :: rest) _ _ _ (by simp) hs
+      split at h
+      · cases h
+      · simp only [bind, Except.bind, pure, Except.pure] at h
+        cases hs : expandOne given inter v (r1 :: rest) (pre ++ [part]) sub0 with
+        | error e => rw [hs] at h; cases h
+        | ok sub =>
+          rw [hs] at h; cases h
+          rw [getPath_cons_some _ (dget_dset_self' part _ acc)]
+          exact expandOne_get given inter v (r1 :: rest) _ _ _ (by simp) hs
     · split at h <;> cases h
 
+/-- the shape of a successful walk through a first component: the component is (re)set -/
+theorem expandOne_head (given inter : List String) (v : Val) (part r1 : String) (rest pre : List String)
+    (acc acc' : Fields) (h : expandOne given inter v (part :: r1 :: rest) pre acc = .ok acc') :
+    given.contains (joinDots (pre ++ [part])) = false ∧
+    ∃ sub0 sub, (dget part acc = none ∧ sub0 = [] ∨ dget part acc = some (.doc sub0)) ∧
+      expandOne given inter v (r1 :: rest) (pre ++ [part]) sub0 = .ok sub ∧
+      acc' = dset part (.doc sub) acc := by
+  simp only [expandOne] at h
+  split at h
+  · rename_i hnone
+    split at h
+    · cases h
+    · rename_i hg
+      simp only [bind, Except.bind, pure, Except.pure] at h
+      cases hs : expandOne given inter v (r1 :: rest) (pre ++ [part]) [] with
+      | error e => rw [hs] at h; cases h
+      | ok sub =>
+        rw [hs] at h; cases h
+        exact ⟨by simpa using hg, [], sub, Or.inl ⟨hnone, rfl⟩, hs, rfl⟩
+  · rename_i sub0 hsome
+    split at h
+    · cases h
+    · rename_i hg
+      simp only [bind, Except.bind, pure, Except.pure] at h
+      cases hs : expandOne given inter v (r1 :: rest) (pre ++ [part]) sub0 with
+      | error e => rw [hs] at h; cases h
+      | ok sub =>
+        rw [hs] at h; cases h
+        exact ⟨by simpa using hg, sub0, sub, Or.inr hsome, hs, rfl⟩
+  · split at h <;> cases h
+
 /-- frame: a path incomparable with the new one reads as before -/
-theorem expandOne_frame (paths : List String) (v : Val) : ∀ (p pre : List String) (acc acc' : Fields)
-    (q : List String), expandOne paths v p pre acc = .ok acc' → Incomp p q →
+theorem expandOne_frame (given inter : List String) (v : Val) : ∀ (p pre : List String) (acc acc' : Fields)
+    (q : List String), expandOne given inter v p pre acc = .ok acc' → Incomp p q →
     getPath q (.doc acc') = getPath q (.doc acc)
   | [], _, _, _, q, _, hi => absurd (List.nil_prefix) hi.1
   | [last], pre, acc, acc', q, h, hi => by
@@ -85,59 +121,57 @@ theorem expandOne_frame (paths : List String) (v : Val) : ∀ (p pre : List Stri
     cases q with
     | nil => exact absurd List.nil_prefix hi.2
     | cons a t =>
-      simp only [expandOne] at h
+      obtain ⟨_, sub0, sub, hcase, hs, rfl⟩ := expandOne_head given inter v part r1 rest pre acc acc' h
       by_cases hne : part = a
       · subst hne
         have hi' := incomp_cons_same hi
-        split at h
-        · rename_i hnone
-          simp only [bind, Except.bind, pure, Except.pure] at h
-          cases hs : expandOne paths v (r1 :: rest) (pre ++ [part]) [] with
-          | error e => rw [hs] at h; cases h
-          | ok sub =>
-            rw [hs] at h; cases h
-            rw [getPath_cons_some t (dget_dset_self' part _ acc), getPath_cons_none t hnone]
-            rw [expandOne_frame paths v (r1 :: rest) _ _ _ t hs hi']
-            cases t with
-            | nil => exact absurd List.nil_prefix hi'.2
-            | cons b t' => exact getPath_empty_doc b t'
-        · rename_i sub0 hsome
-          simp only [bind, Except.bind, pure, Except.pure] at h
-          cases hs : expandOne paths v (r1 :: rest) (pre ++ [part]) sub0 with
-          | error e => rw [hs] at h; cases h
-          | ok sub =>
-            rw [hs] at h; cases h
-            rw [getPath_cons_some t (dget_dset_self' part _ acc), getPath_cons_some t hsome]
-            exact expandOne_frame paths v (r1 :: rest) _ _ _ t hs hi'
-        · split at h <;> cases h
-      · have hres : ∃ x, acc' = dset part x acc := by
-          split at h
-          · simp only [bind, Except.bind, pure, Except.pure] at h
-            split at h
-            · cases h
-            · cases h; exact ⟨_, rfl⟩
-          · simp only [bind, Except.bind, pure, Except.pure] at h
-            split at h
-            · cases h
-            · cases h; exact ⟨_, rfl⟩
-          · split at h <;> cases h
-        obtain ⟨x, rfl⟩ := hres
-        exact getPath_cons_congr t (dget_dset_other a part x hne acc)
+        rw [getPath_cons_some t (dget_dset_self' part _ acc)]
+        rw [expandOne_frame given inter v (r1 :: rest) _ _ _ t hs hi']
+        rcases hcase with ⟨hnone, rfl⟩ | hsome
+        · rw [getPath_cons_none t hnone]
+          cases t with
+          | nil => exact absurd List.nil_prefix hi'.2
+          | cons b t' => exact getPath_empty_doc b t'
+        · rw [getPath_cons_some t hsome]
+      · exact getPath_cons_congr t (dget_dset_other a part _ hne acc)
+
+/-- a successful walk passed through no key stated before -/
+theorem expandOne_ok_not_given (given inter : List String) (v : Val) : ∀ (p pre : List String)
+    (acc acc' : Fields), expandOne given inter v p pre acc = .ok acc' →
+    ∀ i, 0 < i → i < p.length → given.contains (joinDots (pre ++ p.take i)) = false
+  | [], _, _, _, _, i, _, hi => by simp at hi
+  | [last], _, _, _, _, i, h0, hi => by simp at hi; omega
+  | part :: r1 :: rest, pre, acc, acc', h, i, h0, hi => by
+    obtain ⟨hg, sub0, sub, _, hs, _⟩ := expandOne_head given inter v part r1 rest pre acc acc' h
+    cases i with
+    | zero => omega
+    | succ j =>
+      cases j with
+      | zero => simpa using hg
+      | succ j' =>
+        have := expandOne_ok_not_given given inter v (r1 :: rest) (pre ++ [part]) sub0 sub hs
+          (j' + 1) (by omega) (by simp only [List.length_cons] at hi ⊢; omega)
+        simpa [List.take_succ_cons, List.append_assoc] using this
 
 theorem splitDots_ne_nil (k : String) : splitDots k ≠ [] :=
   MongoModel.Proofs.C02Lemmas.splitDotsChars_ne_nil _ _
 
 /-- one step of `expandDots` is one `expandOne` on the accumulated document -/
-theorem edStep_ok (st st1 : Fields × List String) (kv : String × Val) (h : edStep st kv = .ok st1) :
-    ∃ paths, expandOne paths kv.2 (splitDots kv.1) [] st.1 = .ok st1.1 := by
+theorem edStep_ok (st st1 : Fields × List String × List String) (kv : String × Val)
+    (h : edStep st kv = .ok st1) :
+    st.2.1.contains kv.1 = false ∧ st.2.2.contains kv.1 = false ∧
+    expandOne (st.2.1 ++ [kv.1]) st.2.2 kv.2 (splitDots kv.1) [] st.1 = .ok st1.1 ∧
+    st1.2.1 = st.2.1 ++ [kv.1] ∧ st1.2.2 = st.2.2 ++ properPrefixes (splitDots kv.1) := by
   unfold edStep at h
   split at h
   · cases h
-  · cases he : expandOne (st.2 ++ [kv.1]) kv.2 (splitDots kv.1) [] st.1 with
+  · rename_i hc
+    simp only [Bool.or_eq_true, not_or, Bool.not_eq_true] at hc
+    cases he : expandOne (st.2.1 ++ [kv.1]) st.2.2 kv.2 (splitDots kv.1) [] st.1 with
     | error e => rw [he] at h; cases h
-    | ok acc' => rw [he] at h; cases h; exact ⟨_, he⟩
+    | ok acc' => rw [he] at h; cases h; exact ⟨hc.1, hc.2, rfl, rfl, rfl⟩
 
-theorem fold_paths : ∀ (ss done : Fields) (st st' : Fields × List String),
+theorem fold_paths : ∀ (ss done : Fields) (st st' : Fields × List String × List String),
     ss.foldlM edStep st = .ok st' →
     ss.Pairwise (fun a b => Incomp (splitDots a.1) (splitDots b.1)) →
     (∀ a ∈ done, ∀ b ∈ ss, Incomp (splitDots a.1) (splitDots b.1)) →
@@ -154,7 +188,7 @@ theorem fold_paths : ∀ (ss done : Fields) (st st' : Fields × List String),
     | ok st1 =>
       rw [h1] at h
       simp only [bind, Except.bind] at h
-      obtain ⟨paths, hex⟩ := edStep_ok st st1 kv h1
+      obtain ⟨_, _, hex, _, _⟩ := edStep_ok st st1 kv h1
       obtain ⟨hp1, hp2⟩ := List.pairwise_cons.1 hp
       have := fold_paths ss (done ++ [kv]) st1 st' h hp2
         (by
@@ -165,23 +199,116 @@ theorem fold_paths : ∀ (ss done : Fields) (st st' : Fields × List String),
         (by
           intro a ha
           rcases List.mem_append.1 ha with ha | ha
-          · rw [expandOne_frame paths kv.2 _ _ _ _ _ hex (hc a ha kv (List.mem_cons_self ..)).symm]
+          · rw [expandOne_frame _ _ kv.2 _ _ _ _ _ hex (hc a ha kv (List.mem_cons_self ..)).symm]
             exact hdone a ha
           · simp only [List.mem_singleton] at ha; subst ha
-            exact expandOne_get paths a.2 _ _ _ _ (splitDots_ne_nil _) hex)
+            exact expandOne_get _ _ a.2 _ _ _ _ (splitDots_ne_nil _) hex)
       simpa using this
 
-/-- **`expandDots` at any depth**: with prefix-free keys a successful expansion holds every item
-    of the filter at its path -/
-theorem expand_paths (ss ex : Fields) (h : expandDots ss = .ok ex) (hp : prefixFree ss) :
-    ∀ kv ∈ ss, getPath (splitDots kv.1) (.doc ex) = some kv.2 := by
+/-! ### a successful expansion means prefix-free keys: a key stated twice, a key that is a dotted
+    prefix of an earlier one and a key that runs through an earlier one all raise -/
+
+/-- the proper prefixes recorded for the keys of `done` -/
+def recorded (done : Fields) : List String := done.flatMap (fun a => properPrefixes (splitDots a.1))
+
+theorem recorded_append (done : Fields) (kv : String × Val) :
+    recorded (done ++ [kv]) = recorded done ++ properPrefixes (splitDots kv.1) := by
+  simp [recorded]
+
+/-- one successful step: the new key is incomparable with every key stated before -/
+theorem edStep_incomp (done : Fields) (st st1 : Fields × List String × List String)
+    (kv : String × Val) (hg : st.2.1 = dkeys done) (hi : st.2.2 = recorded done)
+    (h : edStep st kv = .ok st1) :
+    (∀ a ∈ done, Incomp (splitDots a.1) (splitDots kv.1)) ∧
+    st1.2.1 = dkeys (done ++ [kv]) ∧ st1.2.2 = recorded (done ++ [kv]) := by
+  obtain ⟨h1, h2, hex, h3, h4⟩ := edStep_ok st st1 kv h
+  refine ⟨?_, by rw [h3, hg]; simp [dkeys], by rw [h4, hi, recorded_append]⟩
+  intro a ha
+  have hamem : a.1 ∈ dkeys done := List.mem_map.2 ⟨a, ha, rfl⟩
+  constructor
+  · -- an earlier key that is a prefix of the new one: equal, or the walk runs through it
+    rintro ⟨t, ht⟩
+    cases t with
+    | nil =>
+      rw [List.append_nil] at ht
+      have e := splitDots_inj ht
+      rw [hg] at h1
+      have : (dkeys done).contains kv.1 = true := by rw [← e]; simpa using hamem
+      rw [h1] at this; cases this
+    | cons x t =>
+      have hlen : (splitDots a.1).length < (splitDots kv.1).length := by
+        rw [← ht]; simp
+      have hpos : 0 < (splitDots a.1).length :=
+        List.length_pos_iff.2 (splitDots_ne_nil a.1)
+      have hng := expandOne_ok_not_given _ _ _ _ _ _ _ hex (splitDots a.1).length hpos hlen
+      have htake : (splitDots kv.1).take (splitDots a.1).length = splitDots a.1 := by
+        rw [← ht]; simp
+      rw [List.nil_append, htake, joinDots_splitDots, hg] at hng
+      have : (dkeys done ++ [kv.1]).contains a.1 = true := by simp [hamem]
+      rw [hng] at this; cases this
+  · -- the new key is a prefix of an earlier one: equal, or recorded as its proper prefix
+    rintro ⟨t, ht⟩
+    cases t with
+    | nil =>
+      rw [List.append_nil] at ht
+      have e := splitDots_inj ht
+      rw [hg] at h1
+      have : (dkeys done).contains kv.1 = true := by rw [e]; simpa using hamem
+      rw [h1] at this; cases this
+    | cons x t =>
+      have hlen : (splitDots kv.1).length < (splitDots a.1).length := by
+        rw [← ht]; simp
+      have hpos : 0 < (splitDots kv.1).length :=
+        List.length_pos_iff.2 (splitDots_ne_nil kv.1)
+      have htake : (splitDots a.1).take (splitDots kv.1).length = splitDots kv.1 := by
+        rw [← ht]; simp
+      have hm : kv.1 ∈ properPrefixes (splitDots a.1) :=
+        mem_properPrefixes.2 ⟨_, hpos, hlen, by rw [htake, joinDots_splitDots]⟩
+      have : (recorded done).contains kv.1 = true := by
+        simp only [List.contains_eq_mem, decide_eq_true_eq, recorded, List.mem_flatMap]
+        exact ⟨a, ha, hm⟩
+      rw [hi] at h2
+      rw [h2] at this; cases this
+
+theorem fold_incomp : ∀ (ss done : Fields) (st st' : Fields × List String × List String),
+    st.2.1 = dkeys done → st.2.2 = recorded done → ss.foldlM edStep st = .ok st' →
+    ss.Pairwise (fun a b => Incomp (splitDots a.1) (splitDots b.1)) ∧
+    ∀ a ∈ done, ∀ b ∈ ss, Incomp (splitDots a.1) (splitDots b.1)
+  | [], _, _, _, _, _, _ => ⟨List.Pairwise.nil, by simp⟩
+  | kv :: ss, done, st, st', hg, hi, h => by
+    rw [List.foldlM_cons] at h
+    cases h1 : edStep st kv with
+    | error e => rw [h1] at h; cases h
+    | ok st1 =>
+      rw [h1] at h
+      simp only [bind, Except.bind] at h
+      obtain ⟨hinc, hg1, hi1⟩ := edStep_incomp done st st1 kv hg hi h1
+      obtain ⟨hp, hc⟩ := fold_incomp ss (done ++ [kv]) st1 st' hg1 hi1 h
+      refine ⟨List.pairwise_cons.2 ⟨fun b hb => hc kv (by simp) b hb, hp⟩, ?_⟩
+      intro a ha b hb
+      rcases List.mem_cons.1 hb with rfl | hb
+      · exact hinc a ha
+      · exact hc a (by simp [ha]) b hb
+
+/-- **`_expand_dots` succeeds only on prefix-free keys** -/
+theorem expand_ok_prefixFree (ss ex : Fields) (h : expandDots ss = .ok ex) : prefixFree ss := by
   rw [expandDots_eq] at h
-  cases hf : ss.foldlM edStep ([], []) with
+  cases hf : ss.foldlM edStep ([], [], []) with
+  | error e => rw [hf] at h; cases h
+  | ok st' => exact (fold_incomp ss [] ([], [], []) st' rfl rfl hf).1
+
+/-- **`expandDots` at any depth**: a successful expansion holds every item of the filter at its
+    path (the keys are prefix-free: `expand_ok_prefixFree`) -/
+theorem expand_paths (ss ex : Fields) (h : expandDots ss = .ok ex) :
+    ∀ kv ∈ ss, getPath (splitDots kv.1) (.doc ex) = some kv.2 := by
+  have hp := expand_ok_prefixFree ss ex h
+  rw [expandDots_eq] at h
+  cases hf : ss.foldlM edStep ([], [], []) with
   | error e => rw [hf] at h; cases h
   | ok st' =>
     rw [hf] at h
     cases h
-    have := fold_paths ss [] ([], []) st' hf hp (by simp) (by simp)
+    have := fold_paths ss [] ([], [], []) st' hf hp (by simp) (by simp)
     simpa using this
 
 end MongoModel.Proofs.C13Ext
